@@ -196,3 +196,15 @@ fn permute<X>(e: &mut [Option<X>; CAP], used: &mut [bool; CAP]) {
   #[cfg(not(kani))]
   { let _ = (e, used); }
 }
+
+// --- conveniences used only by /repo's own unit tests when they are run against the models (validate_models.sh) ---------
+impl<T: Eq + Hash, S: BuildHasher + Default> ::std::iter::FromIterator<T> for HashSet<T, S> {
+  fn from_iter<I: IntoIterator<Item = T>>(it: I) -> Self { let mut s = Self::default(); for x in it { s.insert(x); } s }
+}
+impl<T: Eq + Hash, S: BuildHasher> ::std::iter::Extend<T> for HashSet<T, S> {
+  fn extend<I: IntoIterator<Item = T>>(&mut self, it: I) { for x in it { self.insert(x); } }
+}
+impl<T: Eq + Hash, S: BuildHasher> PartialEq for HashSet<T, S> {
+  fn eq(&self, o: &Self) -> bool { self.len() == o.len() && self.iter().all(|x| o.contains(x)) }
+}
+impl<T: Eq + Hash, S: BuildHasher> Eq for HashSet<T, S> {}
